@@ -166,6 +166,9 @@ func drawDecCase(t *rapid.T) decCase {
 	c.Spare = rapid.SampledFrom([]int{0, 0, 1, 16, 64, 4096}).Draw(t, "spare")
 	c.Fill = rapid.SampledFrom([]int{0, 1, 2, 3}).Draw(t, "fill")
 	c.Place = rapid.SampledFrom([]string{"end", "end", "start"}).Draw(t, "place")
+	if c.DstLen == 0 && rapid.Bool().Draw(t, "nildst") {
+		c.Place = "nil" // a destination of length 0 may well be a nil slice
+	}
 	return c
 }
 
@@ -411,6 +414,20 @@ func TestC03Pinned(t *testing.T) {
 	for _, blk := range loadCorpus() {
 		for _, dl := range []int{0, 1, 100, 65536} {
 			pinned(t, "C03", "C03/decode", decCase{Src: blk, DstLen: dl, Spare: 16, Place: "end", Origin: "corpus"}, runC03)
+		}
+		pinned(t, "C03", "C03/decode", decCase{Src: blk, Place: "nil", Origin: "corpus"}, runC03)
+	}
+	// a nil destination (length 0), with and without a dictionary: every first token x a few continuations
+	for tok := 0; tok < 256; tok++ {
+		for _, n := range []int{1, 2, 3, 17, 18, 19, 33, 64} {
+			src := make([]byte, n)
+			gen.Fill(src, uint64(tok*131+n))
+			src[0] = byte(tok)
+			if n > 2 && tok%3 == 0 {
+				src[n-1] = 0
+			}
+			pinned(t, "C03", "C03/decode", decCase{Src: src, Place: "nil", Origin: "pinned"}, runC03)
+			pinned(t, "C03", "C03/decode", decCase{Src: src, Place: "nil", Dict: []byte("0123456789abcdefghij"), Origin: "pinned"}, runC03)
 		}
 	}
 }
